@@ -100,6 +100,28 @@ UNIT = Unit(
                                                          f"  forall|j: int| 0 <= j < {mt.group(1)} ==> inferred(#[trigger] items@[j], items_tast@[j]),\n"
                                                          f"  forall|j: int| 0 <= j < {mt.group(1)} ==> self.recorded().contains(Constraint::TypeEqual(expr_ty(#[trigger] items_tast@[j]), elem_ty)),\n decreases items.len() - {mt.group(1)},") if mt else None)(
                                                          re.search(r"while\s+(__fk\d+)\s*<\s*items\.len\(\)", header))),
+        Fn(file=C, name="infer_closure_expr", container="Typer", ret="r", attrs="#[verifier::loop_isolation(false)]",
+           pre_rewrites=[("params: &[hir::ClosureParam]", "params: &Vec<HirClosureParam>", 1), ("self.hir_table.local_ident_name(", "self.local_ident_name(", "*"),
+                         (re.compile(r"self\.results\.record_"), "self.record_", "*"), ("&self.hir_table", "self.hir_table_ref()", "*"),
+                         ("let mut params_tast = Vec::new();", "let mut params_tast: Vec<ClosureParam> = Vec::new();", 1), ("let mut param_tys = Vec::new();", "let mut param_tys: Vec<Ty> = Vec::new();", 1)],
+           rewrites=[VC, PUSHED],
+           obligation="closure: one parameter type per parameter, in order (the annotation's type where one is written), the body's type as result type",
+           contract="ensures closure_rule_ok(params@, body, r),",
+           loop_fn=lambda k, header, kw: (lambda mt: (f"invariant {mt.group(1)} <= params.len(), params_tast@.len() == {mt.group(1)}, param_tys@.len() == {mt.group(1)},\n"
+               f"  forall|j: int| 0 <= j < {mt.group(1)} ==> (#[trigger] param_tys@[j]) == params_tast@[j].ty && (params@[j].ty matches Some(h) ==> annot_ty(h, param_tys@[j])),\n decreases params.len() - {mt.group(1)},") if mt else None)(
+               re.search(r"while\s+(__fk\d+)\s*<\s*params\.len\(\)", header))),
+        Fn(file=C, name="check_closure_expr", container="Typer", ret="r", attrs="#[verifier::loop_isolation(false)]",
+           rules=["attrs", "fmtmsg", ("strip", "tast::"), ("strip", "hir::"), "for_zip", "opt_map"],
+           pre_rewrites=[("params: &[hir::ClosureParam]", "params: &Vec<HirClosureParam>", 1), ("self.hir_table.local_ident_name(", "self.local_ident_name(", "*"),
+                         (re.compile(r"self\.results\.record_"), "self.record_", "*"), ("&self.hir_table", "self.hir_table_ref()", "*"), ("expected_ret.as_ref()", "&**expected_ret", "*"),
+                         ("let mut params_tast = Vec::new();", "let mut params_tast: Vec<ClosureParam> = Vec::new();", 1), ("let mut param_tys = Vec::new();", "let mut param_tys: Vec<Ty> = Vec::new();", 1)],
+           rewrites=[VC, PUSHED],
+           obligation="closure against an expected function type: parameters take the expected types (an annotation is equated with it), the body is checked against the expected result",
+           contract="ensures check_closure_ok(params@, body, *expected, r, final(self).recorded()),",
+           loop_fn=lambda k, header, kw: (lambda mt: (f"invariant {mt.group(1)} <= params.len(), {mt.group(1)} <= expected_params.len(), params_tast@.len() == {mt.group(1)}, param_tys@.len() == {mt.group(1)},\n"
+               f"  forall|j: int| 0 <= j < {mt.group(1)} ==> (#[trigger] param_tys@[j]) == params_tast@[j].ty && (match params@[j].ty {{ Some(h) => annot_ty(h, param_tys@[j]) && "
+               f"self.recorded().contains(Constraint::TypeEqual(param_tys@[j], expected_params@[j])), None => param_tys@[j] == expected_params@[j] }}),\n decreases params.len() - {mt.group(1)},") if mt else None)(
+               re.search(r"while\s+(__zk\d+)\s*<\s*params\.len\(\)", header))),
         whole("infer_field_expr",
               "ensures r matches Expr::EField { expr: b, field_name, ty, astptr: _ } && inferred(expr, *b) && field_name@ == field.text()\n"
               "  && exists|f: TastIdent| #[trigger] final(self).recorded().contains(Constraint::StructFieldAccess { expr_ty: expr_ty(*b), field: f, result_ty: ty }) && f.0@ == field.text(),",
